@@ -220,12 +220,33 @@ def check_gctm(ctx, pc, rng, record):
     ctx.case("GCTM", key=(N, L, float(hf.sum()), float(p.sum())), nontrivial=True, sample=wit)
     record.clear()
     hs_, cs_ = 10000.0, 100e-15
-    if rng.random() < 0.4:                              # non-default scalings must only change the conditioning, not the result
+    unit = 1.0
+    u_ = rng.random()
+    if u_ < 0.3:                              # non-default scalings must only change the conditioning, not the result
         hs_, cs_ = float(rng.choice([5000.0, 20000.0])), float(rng.choice([50e-15, 200e-15]))
         h_L, c_L = pure_call(ctx, "GCTM", pc.GCTM, h, p, L, hs_, cs_)
         wit = dict(wit, h_scaling=hs_, cn2_scaling=cs_)
+    elif u_ < 0.5:
+        # the same profile with heights in km, or as a fraction of 20 km, and the height scaling in the same unit (10, 0.5):
+        # the scaled problem handed to the optimiser is the same one
+        unit = float(rng.choice([1000.0, 20000.0]))
+        h = hf / unit
+        hf = h
+        hs_ = 10000.0 / unit
+        h_L, c_L = pure_call(ctx, "GCTM", pc.GCTM, h, p, L, hs_, cs_)
+        wit = dict(wit, h_scaling=hs_, cn2_scaling=cs_, height_unit_m=unit)
     else:
         h_L, c_L = pure_call(ctx, "GCTM", pc.GCTM, h, p, L)
+    # whatever the optimiser did, the returned layers must fit the moments at least as well as the starting guess
+    # (the equivalent-layers compression, a public function) in the function's own scaled variables
+    g_h, g_c = pc.equivalent_layers(h, p, L)
+    m0_ = np.array([(np.asarray(p, float) / cs_ * (hf / hs_) ** i).sum() for i in range(2 * L - 1)])
+    fobj = lambda hh, cc: float(((np.array([(np.asarray(cc, float) / cs_ * (np.asarray(hh, float) / hs_) ** i).sum() for i in range(2 * L - 1)]) - m0_) ** 2).sum())
+    if len(h_L) == L and len(c_L) == L:
+        f_ret, f_guess = fobj(h_L, c_L), fobj(g_h, g_c)
+        ctx.count("gctm_result_vs_starting_guess")
+        ctx.check(f_ret <= f_guess * (1 + 1e-9) + 1e-24 * float((m0_ ** 2).sum()), "GCTM:worse_than_starting_guess",
+                  "the returned layers miss the moments by %.3g, the equivalent-layers starting guess by %.3g" % (f_ret, f_guess), wit)
     ctx.check(len(h_L) == L and len(c_L) == L, "GCTM:layer_count", "returned %d/%d layers" % (len(h_L), len(c_L)), wit)
     ctx.check(bool(np.all(np.asarray(c_L) >= 0) and np.all(np.asarray(h_L) >= 0)), "GCTM:bounds", "negative strength or height", wit)
     if len(record) != 1:
@@ -238,16 +259,16 @@ def check_gctm(ctx, pc, rng, record):
         f0, f1 = rec["f_x0"], rec["f_res"]
         ctx.check(f1 <= f0 * (1 + 1e-12), "GCTM:objective_increased", "objective went from %.3g to %.3g" % (f0, f1), wit)
     success = bool(record[0]["success"]) if len(record) == 1 else True
-    hs, cs = hf / 10000.0, np.asarray(p, float) / 100e-15
+    hs, cs = hf * unit / 10000.0, np.asarray(p, float) / 100e-15
     mom_in = np.array([(cs * hs ** i).sum() for i in range(2 * L - 1)])
-    mom_out = np.array([(np.asarray(c_L) / 100e-15 * (np.asarray(h_L) / 10000.0) ** i).sum() for i in range(2 * L - 1)])
+    mom_out = np.array([(np.asarray(c_L) / 100e-15 * (np.asarray(h_L) * unit / 10000.0) ** i).sum() for i in range(2 * L - 1)])
     relerr = float(np.abs(mom_out - mom_in).max() / np.abs(mom_in).max())
     ctx.metric("gctm_moment_relerr" + ("_success" if success else "_nosuccess"), relerr)
     # The optimiser weights the high moments far more than moment 0 (scaled heights reach 2.5-5, so h^6 is 250-15000):
     # total Cn2 errors of 4-15 % (default scalings) and up to 61 % (h_scaling = 5000) were observed on the unchanged tree
     # with SciPy reporting convergence. "To optimiser accuracy" promises no more, so it is reported, not judged.
     ctx.metric("gctm_total_cn2_relerr", abs(mom_out[0] - mom_in[0]) / mom_in[0])
-    bound = 0.1 if (hs_, cs_) == (10000.0, 100e-15) else 0.3
+    bound = 0.1 if (hs_ * unit, cs_) == (10000.0, 100e-15) else 0.3
     if success:
         ctx.check(relerr <= bound, "GCTM:moments", "moments reproduced to %.3g only (optimiser reported success; bound %.1f)" % (relerr, bound), wit)
 
